@@ -194,6 +194,9 @@ def q1_poll_inventory(F, r):
         for p in it.explore():
             polls = [a for a in p.assumptions if a[0] == "callret" and a[4] in poll_lines and a[3] and (a[3] == QUOTA or mir.closure_arg_calls(F, fn, _term_at(fn, a[4], a[3]), lambda c: c == QUOTA))]
             inner_true = any(a[2] is True for a in polls)
+            absent = any(a[0] == "optional" and a[2] is False and any(a[1].endswith("." + f) or a[1] == f for f in inner) for a in p.assumptions)
+            if absent:
+                continue          # no wrapped quota configured on this path (Option::None): nothing to consult
             if p.ret == ("bool", False) and not polls:
                 ok = False
             if inner_true and p.ret != ("bool", True):
